@@ -49,7 +49,7 @@ def comparisons(rnd, n):
 def generate(tier, seed):
     rnd = random.Random(seed)
     items = []
-    cmps = comparisons(rnd, 150 if tier == 'quick' else 1500)
+    cmps = comparisons(rnd, 150 if tier == 'quick' else 8000)
     chains = [c for c in cmps if len(c) > 4]
     atoms = [atom('p'), atom('q', X), atom('r', XI, sym('a')), atom('q', XS), TRUE, FALSE, atom('r', ('ifc', Q('c')), Y)]
     for c in cmps:
@@ -94,7 +94,7 @@ def generate(tier, seed):
         items.append({'family': 'integer-terms', 'formula': atom('q', t)})
         items.append({'family': 'integer-terms', 'formula': cmp(YI, '<=', t)})
     # seeded deeper tail
-    n = 300 if tier == 'quick' else 5000
+    n = 300 if tier == 'quick' else 40000
     pool = small + d1[:60] + chains[:40]
     for _ in range(n):
         a, b_, c = rnd.choice(pool), rnd.choice(pool), rnd.choice(pool)
@@ -358,7 +358,7 @@ def replay(r):
 
 def describe(tier):
     return {
-        'rule': 'every relation between every pair of 10 terms of all sorts (integer, symbol, general, function constants of the '
+        'rule': 'integer terms: every operator (unary minus, +, -, *) over every leaf kind (variable, 0, positive and negative numeral, placeholder) to depth 1, every depth-2 shape containing a unary minus, the rest of depth 2 seeded; every relation between every pair of 10 terms of all sorts (integer, symbol, general, function constants of the '
                 'three sorts, #inf), seeded chains of length 2-4 over 20 terms, every connective/quantifier block over a pool '
                 'that contains chained comparisons at depth 1 (exhaustive) and depth 2, chains under every connective, numerals '
                 'at the limits of isize, a seeded depth-3+ tail, and every formula of the problems of three strong-equivalence '
